@@ -1,4 +1,5 @@
 import RpmVerif.Lemmas.Cpio
+import RpmVerif.Lemmas.FileIter
 /-!
 # C07 — payload iteration returns every file's exact content under its own metadata
 
@@ -22,6 +23,11 @@ empty files, any NUL-free UTF-8 name whose length is below 4096):
   hypothesis (first file of that path); `unknown_entry_is_error`: an entry designating no header file is an
   error item, never an `ok` one.  `foreign_archive_pairing`: written archives in ANY order / with ANY files
   left out come back entry by entry under the right index.  `builder_pairing`: the library's own archives.
+* `next_none_after_n`, `items_le_entries`, `iterate_terminates` — `FileIterator::next` as a state machine over an
+  ARBITRARY stream behaviour (Model/FileIter.lean): `count += 1` precedes the read, so whatever the stream does —
+  also after an error item, whose stream position is undefined — at most `file_entries.len()` items come out and a
+  `collect()` ends; `iterateE_is_prefix`: the `iterateE` of the theorems above is exactly the items up to the first
+  error, for every stream position an error may leave; `after_error_*_witness`: what the code does after an error.
 * `old_position_pairing_*` — the iterator before the fix (`iterateEOld`, pairing by POSITION) kept as proved
   negative witnesses: an archive omitting a `%ghost` file, a reordered archive.
 -/
@@ -482,6 +488,116 @@ theorem sorted_nodup {l : List FileIn} (h : SortedByPath l) : (l.map (·.path)).
   intro a b hab heq
   rw [heq, bytesLt_irrefl] at hab
   cases hab
+
+/-! ## the iterator as a state machine: what `next()` answers AFTER an error item (Model/FileIter.lean)
+
+`FileIterator::next` is neither fused nor stopped by an error.  The theorems of this section hold for every stream
+state type `σ` and every `step : σ → Step σ`, i.e. for every behaviour of the `Box<dyn Read>` behind the iterator
+(an in-memory cursor, a decompressor inside a damaged frame, a stream whose position after an error is arbitrary). -/
+
+section StateMachine
+open RpmVerif.FileIter
+
+/-- **next_none_after_n** — once `count` has reached `file_entries.len()` the iterator answers `None` and does not
+touch the stream any more -/
+theorem next_none_after_n {σ : Type} (step : σ → Step σ) (n : Nat) (st : St σ) (h : st.count ≥ n) :
+    next step n st = (none, st) :=
+  next_of_ge step n st h
+
+example : next (stepMem [[47, 97]] [1]) 1 ⟨1, [1, 2, 3]⟩ = (none, ⟨1, [1, 2, 3]⟩) := rfl
+
+/-- **items_le_entries** — for EVERY stream behaviour: a consumer that pulls until the first `None` (`for`,
+`collect()`, `count()`, at most `fuel` pulls) sees at most `file_entries.len() - count` items, errors included;
+and a consumer that keeps calling `next()` after a `None` gets at most that many `Some(_)` answers in ANY number
+`k` of calls (this is what `count += 1` BEFORE the read buys: seeds C04-4 / C04-8 moved it behind the read) -/
+theorem items_le_entries {σ : Type} (step : σ → Step σ) (n : Nat) (st : St σ) :
+    (∀ fuel, (drain step n fuel st).length ≤ n - st.count)
+    ∧ (∀ k, ((answers step n k st).filter Option.isSome).length ≤ n - st.count) :=
+  ⟨fun fuel => drain_length step n fuel st, fun k => answers_some_le step n k st⟩
+
+/-- a fresh `files()` iterator: `collect()` returns at most `file_entries.len()` items -/
+theorem collect_le_entries {σ : Type} (step : σ → Step σ) (n : Nat) (s : σ) : (collect step n s).length ≤ n :=
+  drain_length step n (n + 1) ⟨0, s⟩
+
+/-- the bound is attained, and attained by errors: a header with three files over an empty payload makes
+`collect()` return three error items -/
+example : collectMem [] [[47, 97], [47, 98], [47, 99]] [1, 1, 1] = [.err "eof", .err "eof", .err "eof"] := by decide +kernel
+
+/-- **iterate_terminates** — for EVERY stream behaviour the loop `while let Some(x) = it.next()` ends: more than
+`file_entries.len() - count` pulls change nothing (so `collect`'s `n + 1` pulls see the whole iteration), and after
+that many calls every further call answers `None` -/
+theorem iterate_terminates {σ : Type} (step : σ → Step σ) (n : Nat) (st : St σ) :
+    (∀ fuel, n - st.count ≤ fuel → drain step n fuel st = drain step n (n - st.count) st)
+    ∧ (∀ k, n - st.count ≤ k → (next step n (stateAfter step n k st)).1 = none) := by
+  refine ⟨fun fuel hf => drain_fuel step n fuel st hf, fun k hk => ?_⟩
+  have := stateAfter_count_ge step n k st (by omega)
+  rw [next_of_ge step n _ this]
+
+example : drain (stepMem [] []) 2 7 ⟨0, [9, 9]⟩ = drain (stepMem [] []) 2 2 ⟨0, [9, 9]⟩
+    ∧ drain (stepMem [] []) 2 2 ⟨0, [9, 9]⟩ = [.err "eof", .err "eof"] := by decide +kernel
+
+/-- **iterateE_is_prefix** — `Cpio.iterateE` (the iterator of all pairing / round-trip theorems above, which ends
+its list at the first error) is exactly what a `collect()` of the real iteration shows up to and including the
+first error item — whatever position `after` the stream is left at by an error (`stepAfter`), in particular for the
+positions the in-memory stream really has (`stepMem`, `after = id`) -/
+theorem iterateE_is_prefix (after : Bytes → Bytes) (paths : List Bytes) (sizes : List Nat) (archive : Bytes) :
+    uptoErr (collect (stepAfter after paths sizes) sizes.length archive) = iterateE paths sizes sizes.length archive := by
+  unfold collect
+  rw [drain_fuel _ _ _ _ (by simp)]
+  exact iterateE_is_prefix_gen after paths sizes sizes.length sizes.length 0 archive (by omega)
+
+theorem iterateE_is_prefix_mem (paths : List Bytes) (sizes : List Nat) (archive : Bytes) :
+    uptoErr (collectMem archive paths sizes) = iterateE paths sizes sizes.length archive := by
+  have := iterateE_is_prefix id paths sizes archive
+  rw [stepAfter_id] at this
+  exact this
+
+/-- no error item in `iterateE` (every archive the builder writes: `cpio_roundtrip`, `foreign_archive_pairing`):
+then `collect()` returns exactly the items of `iterateE` — nothing comes after them -/
+theorem collect_eq_iterateE_of_no_error (paths : List Bytes) (sizes : List Nat) (archive : Bytes)
+    (h : ∀ o ∈ iterateE paths sizes sizes.length archive, o.isOk = true) :
+    collectMem archive paths sizes = iterateE paths sizes sizes.length archive := by
+  have hp := iterateE_is_prefix_mem paths sizes archive
+  rw [← hp] at h
+  rw [← hp, uptoErr_all_ok_iff _ h]
+
+example : collectMem (archiveOf [({ name := [46, 47, 97], ino := 1, mode := 33188 }, [65])]) [[47, 97]] [1]
+    = [.ok (0, .cpio ⟨false, [46, 47, 97], 1, 33188, 0, 0, 1, 0, 1, 0, 0, 0, 0, 0⟩, [65])] := by decide +kernel
+
+/-- on a stream that is used up every remaining call is an `UnexpectedEof` item: a payload cut anywhere makes
+`collect()` return one error per header file that is left -/
+theorem drained_stream_only_errors (paths : List Bytes) (sizes : List Nat) (n fuel c : Nat) :
+    drain (stepMem paths sizes) n fuel ⟨c, []⟩ = List.replicate (min fuel (n - c)) (.err "eof") :=
+  drain_nil paths sizes n fuel c
+
+/-- **after_error_keeps_answering_witness** — the archive ends inside the second of three files: `iterateE` (and a
+consumer using `?`) stops at the error, `collect()` gets a second error item for the third header file -/
+theorem after_error_keeps_answering_witness :
+    let archive := writeEntry { name := [46, 47, 97], ino := 1, mode := 33188 } [65]
+                   ++ (writeEntry { name := [46, 47, 98], ino := 2, mode := 33188 } [66, 66, 66, 66]).dropLast
+    (iterate archive [[47, 97], [47, 98], [47, 99]] [1, 4, 0] = [.ok (0, [65]), .err "eof"])
+    ∧ (collectMem archive [[47, 97], [47, 98], [47, 99]] [1, 4, 0]).map (Out.map fun x => (x.1, x.2.2))
+        = [.ok (0, [65]), .err "eof", .err "eof"] := by
+  decide +kernel
+
+/-- **after_error_resumes_witness** — an entry that names no file of the header is an error item that leaves the
+stream behind the entry's header; its data is empty here, so the next call finds the next entry and hands out an
+`Ok` item AFTER the error (then `count` has reached the two header files and the trailer is never read) -/
+theorem after_error_resumes_witness :
+    let archive := archiveOf [({ name := [46, 47, 120], ino := 1, mode := 33188 }, []),
+                              ({ name := [46, 47, 97], ino := 2, mode := 33188 }, [65])]
+    (iterate archive [[47, 97], [47, 103]] [1, 0] = [.err "no-such-file"])
+    ∧ (collectMem archive [[47, 97], [47, 103]] [1, 0]).map (Out.map fun x => (x.1, x.2.2))
+        = [.err "no-such-file", .ok (0, [65])] := by
+  decide +kernel
+
+/-- the iterator is not fused: after the `None` of a trailer a further call reads on behind the trailer's header -/
+theorem not_fused_witness :
+    answers (stepMem [[47, 97], [47, 98]] [1, 1]) 2 3 ⟨0, trailer ++ writeEntry { name := [46, 47, 97] } [65]⟩
+      = [none, some (.ok (0, .cpio ⟨false, [46, 47, 97], 0, 0, 0, 0, 1, 0, 1, 0, 0, 0, 0, 0⟩, [65])), none] := by
+  decide +kernel
+
+end StateMachine
 
 /-! ## non-vacuity -/
 
